@@ -11,6 +11,7 @@ from .book_session import PLURAL_ACCESSORS, SINGLE_ACCESSORS, current_row, histo
 from .common import BADPX, NOPX, MachineryError, Units, import_pams
 
 import_pams()
+from pams.agents.arbitrage_agent import ArbitrageAgent  # noqa: E402
 from pams.agents.base import Agent  # noqa: E402
 from pams.agents.high_frequency_agent import HighFrequencyAgent  # noqa: E402
 from pams.events.base import EventABC, EventHook  # noqa: E402
@@ -187,6 +188,10 @@ def log_key(log, rec):
 
 class RecLogger(Logger):
     """Records every way a record can reach the logger and every delivery (process_*)."""
+
+    def __len__(self):
+        """a logger that counts as empty (a user's logger may define a length): it is still the logger"""
+        return 0
 
     def write(self, log):
         kind, key = log_key(log, REC)
@@ -453,6 +458,9 @@ class ProbeSimulator(Simulator):
 
 
 # ------------------------------------------------------------------------------------------------ agents
+INDEX_TIME_ACCESSORS = ["get_index", "get_market_index", "get_fundamental_index", "compute_market_index", "compute_fundamental_index"]
+
+
 class ScriptMixin:
     """User-written agent: consults a program (random, from its own seeded generator, or forced by a replay),
     keeps references to its own orders, reports every callback with a snapshot of all holdings."""
@@ -510,7 +518,10 @@ class ScriptMixin:
         """C06: a user program asking a market about the future must be refused (recorded in the market's history)."""
         r = self.prng
         m = r.choice(markets)
-        acc = r.choice(SINGLE_ACCESSORS + PLURAL_ACCESSORS)
+        accs = SINGLE_ACCESSORS + PLURAL_ACCESSORS
+        if isinstance(m, IndexMarket):
+            accs = accs + INDEX_TIME_ACCESSORS + INDEX_TIME_ACCESSORS      # an index market also answers through these
+        acc = r.choice(accs)
         t = m.get_time() + r.choice([1, 1, 2, 0])
         try:
             if acc in PLURAL_ACCESSORS:
@@ -536,7 +547,18 @@ class ScriptMixin:
             taken = [id(c.order) for c in out if isinstance(c, Cancel)]
             cands = [o for o in self.mine if o.order_id is not None and id(o) not in taken]
             if r.random() < p["pCancel"] and cands:
-                out.append(Cancel(order=r.choice(cands)))
+                old = getattr(self, "_old_cancels", None)
+                if old is None:
+                    old = self._old_cancels = []
+                live = [c for c in old if id(c.order) not in taken and c.order.order_id is not None]
+                if live and r.random() < 0.2:
+                    c = r.choice(live)                       # a Cancel object handed in a second time (at a later step)
+                elif r.random() < 0.2:
+                    c = Cancel(order=r.choice(cands), placed_at=max(0, m.get_time() - 2))      # built with a placed_at of its own
+                else:
+                    c = Cancel(order=r.choice(cands))
+                old.append(c)
+                out.append(c)
                 continue
             mo = r.random() < p["pMarket"]
             tick = m.tick_size
@@ -571,6 +593,28 @@ class ScriptMixin:
         REC.emit("cb", kind="exe", a=self.agent_id, m=int(log.market_id), b=int(log.buy_order_id), s=int(log.sell_order_id),
                  v=int(log.volume), px=_soft(u, log.price), t=int(log.time), ba=int(log.buy_agent_id), sa=int(log.sell_agent_id),
                  hold=REC.holdings())
+
+
+class ProbeArbitrageAgent(ArbitrageAgent):
+    """the library's ArbitrageAgent with the probes of a scripted agent around it (consultations, returned batches, callbacks):
+    its strategy is untouched"""
+
+    def submit_orders(self, markets):
+        t = markets[0].get_time()
+        REC.flush_quiet()
+        REC.emit("consult", a=self.agent_id, hft=True, t=int(t))
+        batch = super().submit_orders(markets=markets)
+        summ = []
+        for x in batch:
+            u = REC.U(x.market_id).u
+            summ.append(["o", int(x.market_id), bool(x.is_buy), x.kind == MARKET_ORDER,
+                         0 if x.price is None else max(_soft(u, x.price), 0), int(x.volume), int(x.ttl or 0), REC.obj(x), int(x.agent_id)])
+        REC.emit("ret", a=self.agent_id, hft=True, t=int(t), batch=summ)
+        return batch
+
+    submitted_order = ScriptMixin.submitted_order
+    canceled_order = ScriptMixin.canceled_order
+    executed_order = ScriptMixin.executed_order
 
 
 class ScriptAgent(ScriptMixin, Agent):
